@@ -1,1 +1,1526 @@
-//! placeholder (agent model and history interpreter)
+//! Reference model of the STUN agent and the history interpreter shared by C05, C06, C07, C15,
+//! C18 (model-based checking) and C20 (metamorphic replay).
+//!
+//! The interpreter runs a generated call history against a real `StunAgent` and, in lock step,
+//! against the model. The first discrepancy ends the history; it carries the id of the property
+//! it belongs to, so that each property's check only reports what that property states.
+//!
+//! `StunAgent::poll` walks a `HashMap` and reports the first serviceable transaction it meets, so
+//! the model's prediction for a poll is a set: any serviceable transaction's event is correct.
+
+use std::collections::{BTreeMap, BTreeSet};
+use std::net::SocketAddr;
+use std::time::{Duration, Instant};
+
+use proptest::collection::vec;
+use proptest::prelude::*;
+use serde::{Deserialize, Serialize};
+
+use stun_proto::agent::{HandleStunReply, StunAgent, StunAgentPollRet, StunError, Transmit};
+use stun_types::attribute::*;
+use stun_types::message::{IntegrityAlgorithm, Message, MessageBuilder, MessageType, TransactionId};
+use stun_types::TransportType;
+
+use crate::common::hex_short;
+use crate::gen::lib_class;
+use crate::refstun::{self, Creds, IntegrityVerdict, RefParse, T_MI, T_SHA256};
+
+// ---------------------------------------------------------------------------------------------
+// history language
+
+#[derive(Debug, Clone, PartialEq, Eq, Hash, Serialize, Deserialize)]
+pub enum Adv {
+    Zero,
+    Ms(u32),
+    /// to the model's earliest wake-up minus `0` ms (must not be before now)
+    ToWakeMinus(u32),
+    ToWake,
+    ToWakePlus(u32),
+    Far,
+}
+
+#[derive(Debug, Clone, Copy, PartialEq, Eq, Hash, Serialize, Deserialize)]
+pub enum Auth {
+    Unsigned,
+    /// (key index 0 = A, 1 = B, 2 = C never configured), algorithm 0 = SHA-1, 1 = SHA-256, 2 = both
+    Signed { key: u8, algo: u8 },
+    /// signed with key then one HMAC byte changed
+    Corrupted { key: u8, algo: u8 },
+}
+
+#[derive(Debug, Clone, PartialEq, Eq, Hash, Serialize, Deserialize)]
+pub enum Op {
+    Send { id: u8, class: u8, seal: u8, dest: u8, payload: u8 },
+    /// send immediately followed by configure_timeout (the documented use)
+    SendConfigured { id: u8, seal: u8, dest: u8, payload: u8, rto_ms: u32, retransmits: u8, last_ms: u32 },
+    Advance(Adv),
+    Poll,
+    Drain,
+    Response { id: u8, error: bool, auth: Auth, from: u8, fp: bool },
+    Incoming { id: u8, indication: bool, from: u8 },
+    Cancel { id: u8 },
+    CancelRetransmissions { id: u8 },
+    Configure { id: u8, rto_ms: u32, retransmits: u8, last_ms: u32 },
+    SetRemoteCreds(u8),
+}
+
+#[derive(Debug, Clone, PartialEq, Eq, Hash, Serialize, Deserialize)]
+pub struct History {
+    pub tcp: bool,
+    pub ops: Vec<Op>,
+}
+
+pub const POOL_IDS: [u128; 4] = [
+    0x1111_1111_1111_1111_1111_1111,
+    0x0000_0000_0000_0000_0000_0002,
+    0xffff_ffff_ffff_ffff_ffff_ffff,
+    0x2112_a442_0000_0000_dead_beef,
+];
+pub const UNKNOWN_ID: u128 = 0x7777_0000_0000_0000_0000_0001;
+
+pub fn pool_id(i: u8) -> u128 {
+    if (i as usize) < POOL_IDS.len() {
+        POOL_IDS[i as usize]
+    } else {
+        UNKNOWN_ID + (i as u128 - 4)
+    }
+}
+
+pub fn local_addr() -> SocketAddr {
+    "10.0.0.1:3478".parse().unwrap()
+}
+
+pub fn peer(i: u8) -> SocketAddr {
+    match i % 3 {
+        0 => "192.0.2.1:3478".parse().unwrap(),
+        1 => "192.0.2.2:50000".parse().unwrap(),
+        _ => "[2001:db8::7]:3478".parse().unwrap(),
+    }
+}
+
+pub fn never_used_peer() -> SocketAddr {
+    "198.51.100.9:9".parse().unwrap()
+}
+
+pub fn creds_k(k: u8) -> Creds {
+    match k % 3 {
+        0 => Creds::Short { password: "remote-A".into() },
+        1 => Creds::Long {
+            user: "bob".into(),
+            realm: "example.org".into(),
+            password: "remote-B".into(),
+        },
+        _ => Creds::Short { password: "never-configured".into() },
+    }
+}
+
+fn local_seal_creds() -> Creds {
+    Creds::Short { password: "local-pass".into() }
+}
+
+// ---------------------------------------------------------------------------------------------
+// discrepancies
+
+#[derive(Debug, Clone)]
+pub struct Disc {
+    /// property id the discrepancy belongs to
+    pub tag: &'static str,
+    pub sig: String,
+    pub msg: String,
+    pub step: usize,
+}
+
+fn disc(tag: &'static str, sig: &str, step: usize, msg: String) -> Disc {
+    Disc {
+        tag,
+        sig: sig.to_string(),
+        msg,
+        step,
+    }
+}
+
+#[derive(Debug, Default, Clone, Serialize)]
+pub struct Summary {
+    pub steps: usize,
+    pub sends_ok: u32,
+    pub sends_refused: u32,
+    pub max_outstanding: usize,
+    pub retransmissions: u32,
+    pub exact_polls: u32,
+    pub early_polls: u32,
+    pub late_polls: u32,
+    pub waits_checked: u32,
+    pub timeouts: u32,
+    pub cancels: u32,
+    pub delivered: u32,
+    pub dropped_forged: u32,
+    pub dropped_unknown: u32,
+    pub delivered_after_drop: u32,
+    pub timer_checked_after_drop: u32,
+    pub late_response_after_completion: u32,
+    pub id_reuse: u32,
+    pub incoming: u32,
+    pub validated_peers: usize,
+    pub drop_then_other_peer_traffic: u32,
+    pub retransmit_compared: u32,
+    pub two_dests_outstanding: bool,
+    pub non_request_sends: u32,
+    pub loose: u32,
+    pub overlap_with_retransmission: bool,
+}
+
+// ---------------------------------------------------------------------------------------------
+// model
+
+#[derive(Debug, Clone)]
+enum Timing {
+    Exact { timeouts: Vec<u64>, last: u64, i: usize, last_send: u64 },
+    /// the property does not define the schedule (reconfigured mid-flight, retransmissions cancelled)
+    Loose,
+}
+
+#[derive(Debug, Clone)]
+struct Tx {
+    bytes: Vec<u8>,
+    dest: SocketAddr,
+    had_integrity: bool,
+    timing: Timing,
+    send_cancelled: bool,
+    recv_cancelled: bool,
+    transmissions: u32,
+    max_transmissions: u32,
+    dropped_forged: bool,
+}
+
+#[derive(Debug, Clone, Copy, PartialEq, Eq)]
+enum Due {
+    Cancelled,
+    Send,
+    TimedOut,
+    Wait(u64),
+    Unknown,
+}
+
+impl Tx {
+    fn due(&self, now: u64) -> Due {
+        if self.recv_cancelled {
+            return Due::Cancelled;
+        }
+        match &self.timing {
+            Timing::Loose => Due::Unknown,
+            Timing::Exact { timeouts, last, i, last_send } => {
+                if *i < timeouts.len() {
+                    let t = last_send + timeouts[*i];
+                    if now >= t {
+                        Due::Send
+                    } else {
+                        Due::Wait(t)
+                    }
+                } else {
+                    let t = last_send + last;
+                    if now >= t {
+                        Due::TimedOut
+                    } else {
+                        Due::Wait(t)
+                    }
+                }
+            }
+        }
+    }
+}
+
+fn default_timing(tcp: bool, now: u64) -> Timing {
+    if tcp {
+        Timing::Exact {
+            timeouts: vec![],
+            last: 39_500,
+            i: 0,
+            last_send: now,
+        }
+    } else {
+        Timing::Exact {
+            timeouts: vec![500, 1000, 2000, 4000, 8000, 16000],
+            last: 8000,
+            i: 0,
+            last_send: now,
+        }
+    }
+}
+
+fn configured(tcp: bool, rto: u64, retransmits: u32, last: u64) -> (Vec<u64>, u64) {
+    let t: Vec<u64> = (0..retransmits).map(|k| rto << k).collect();
+    if tcp {
+        (vec![], last + t.iter().sum::<u64>())
+    } else {
+        (t, last)
+    }
+}
+
+struct Model {
+    tcp: bool,
+    outstanding: BTreeMap<u128, Tx>,
+    validated: BTreeSet<SocketAddr>,
+    remote: Option<Creds>,
+    /// WaitUntil(t) answered while transactions were outstanding and nothing changed since
+    pending_wait: Option<u64>,
+    forged_since_wait: bool,
+    completed_ids: BTreeSet<u128>,
+}
+
+impl Model {
+    fn min_wake(&self, now: u64) -> Option<u64> {
+        let mut m: Option<u64> = None;
+        for tx in self.outstanding.values() {
+            let t = match tx.due(now) {
+                Due::Wait(t) => t,
+                Due::Unknown => continue,
+                _ => now,
+            };
+            m = Some(m.map_or(t, |x| x.min(t)));
+        }
+        m
+    }
+    fn all_exact(&self) -> bool {
+        self.outstanding.values().all(|t| matches!(t.timing, Timing::Exact { .. }))
+    }
+}
+
+// ---------------------------------------------------------------------------------------------
+// message construction
+
+pub struct BuiltRequest {
+    pub bytes: Vec<u8>,
+    pub sealed: bool,
+}
+
+/// Build the message for a Send op through the library's builder and hand both the builder and
+/// its serialisation (captured before the send) to `f`.
+fn with_request<R>(id: u128, class: u8, seal: u8, payload: u8, f: impl FnOnce(MessageBuilder<'_>, Vec<u8>) -> R) -> R {
+    let software = Software::new(&format!("vp-{}", payload)).unwrap();
+    let prio = Priority::new(0x6e00_0000 | payload as u32);
+    let user = Username::new(&"u".repeat(payload as usize % 7)).unwrap();
+    let mt = MessageType::from_class_method(lib_class(class), if payload % 5 == 0 { 0x003 } else { 1 });
+    let mut b = Message::builder(mt, TransactionId::from(id));
+    if payload % 2 == 0 {
+        b.add_attribute(&software).unwrap();
+    }
+    if payload % 3 == 0 {
+        b.add_attribute(&prio).unwrap();
+    }
+    if payload % 4 == 1 {
+        b.add_attribute(&user).unwrap();
+    }
+    let raw_val = vec![payload; payload as usize % 9];
+    if payload >= 128 {
+        b.add_raw_attribute(RawAttribute::new(AttributeType::new(0xC057), &raw_val)).unwrap();
+    }
+    let lc = local_seal_creds().to_lib();
+    match seal % 4 {
+        1 => b.add_message_integrity(&lc, IntegrityAlgorithm::Sha1).unwrap(),
+        2 => b.add_message_integrity(&lc, IntegrityAlgorithm::Sha256).unwrap(),
+        3 => {
+            b.add_message_integrity(&lc, IntegrityAlgorithm::Sha1).unwrap();
+            b.add_message_integrity(&lc, IntegrityAlgorithm::Sha256).unwrap();
+        }
+        _ => {}
+    }
+    if payload % 7 == 3 {
+        b.add_fingerprint().unwrap();
+    }
+    let bytes = b.clone().build();
+    f(b, bytes)
+}
+
+/// response bytes assembled by the reference code (independent HMAC)
+pub fn response_bytes(id: u128, error: bool, auth: Auth, fp: bool) -> Vec<u8> {
+    let mtype = refstun::type_encode(if error { 3 } else { 2 }, 1);
+    let mut buf = refstun::header(mtype, 0, id);
+    refstun::push_tlv(&mut buf, 0x8022, b"srv", 0);
+    if error {
+        refstun::push_tlv(&mut buf, 0x0009, &[0, 0, 4, 1, b'n', b'o'], 0);
+    }
+    match auth {
+        Auth::Unsigned => {}
+        Auth::Signed { key, algo } | Auth::Corrupted { key, algo } => {
+            let k = creds_k(key).key();
+            let first = buf.len();
+            if algo % 3 == 0 || algo % 3 == 2 {
+                refstun::push_mi(&mut buf, &k);
+            }
+            if algo % 3 == 1 || algo % 3 == 2 {
+                refstun::push_sha256(&mut buf, &k, 32);
+            }
+            if matches!(auth, Auth::Corrupted { .. }) {
+                // one byte of every HMAC value is changed
+                let mut off = first;
+                while off < buf.len() {
+                    let l = u16::from_be_bytes([buf[off + 2], buf[off + 3]]) as usize;
+                    buf[off + 4 + (id as usize % l)] ^= 0x01;
+                    off += 4 + refstun::pad4(l);
+                }
+            }
+        }
+    }
+    if fp {
+        refstun::push_fp(&mut buf);
+    }
+    refstun::set_len(&mut buf);
+    buf
+}
+
+/// does every integrity attribute of `bytes` verify under `key` (and is there at least one)?
+fn ref_validates(bytes: &[u8], key: &[u8]) -> bool {
+    let RefParse::Accept(r) = refstun::parse(bytes) else {
+        return false;
+    };
+    let ints: Vec<_> = r.attrs.iter().filter(|a| a.ty == T_MI || a.ty == T_SHA256).collect();
+    !ints.is_empty() && ints.iter().all(|a| refstun::integrity_verdict(bytes, a, key) == IntegrityVerdict::Correct)
+}
+
+fn incoming_bytes(id: u128, indication: bool) -> Vec<u8> {
+    let mtype = refstun::type_encode(if indication { 1 } else { 0 }, 1);
+    let mut buf = refstun::header(mtype, 0, id);
+    refstun::push_tlv(&mut buf, 0x8022, b"peer", 0);
+    refstun::set_len(&mut buf);
+    buf
+}
+
+// ---------------------------------------------------------------------------------------------
+// interpreter
+
+pub struct Interp<'h> {
+    pub h: &'h History,
+    pub origin: Instant,
+    agent: StunAgent,
+    model: Model,
+    now: u64,
+    pub sum: Summary,
+    step: usize,
+    transport: TransportType,
+    last_drop_peer: Option<SocketAddr>,
+}
+
+fn ms_of(origin: Instant, t: Instant) -> u64 {
+    t.checked_duration_since(origin).map(|d| d.as_millis() as u64).unwrap_or(0)
+}
+
+fn sub_ms(origin: Instant, t: Instant) -> i128 {
+    match t.checked_duration_since(origin) {
+        Some(d) => d.as_micros() as i128,
+        None => -(origin.duration_since(t).as_micros() as i128),
+    }
+}
+
+impl<'h> Interp<'h> {
+    pub fn new(h: &'h History, origin: Instant) -> Self {
+        let transport = if h.tcp { TransportType::Tcp } else { TransportType::Udp };
+        Interp {
+            h,
+            origin,
+            agent: StunAgent::builder(transport, local_addr()).build(),
+            model: Model {
+                tcp: h.tcp,
+                outstanding: BTreeMap::new(),
+                validated: BTreeSet::new(),
+                remote: None,
+                pending_wait: None,
+                forged_since_wait: false,
+                completed_ids: BTreeSet::new(),
+            },
+            now: 0,
+            sum: Summary::default(),
+            step: 0,
+            transport,
+            last_drop_peer: None,
+        }
+    }
+
+    fn at(&self, ms: u64) -> Instant {
+        self.origin + Duration::from_millis(ms)
+    }
+
+    fn d(&self, tag: &'static str, sig: &str, msg: String) -> Disc {
+        disc(tag, sig, self.step, format!("step {} (t={} ms): {}", self.step, self.now, msg))
+    }
+
+    fn check_transmit(&self, tr: &Transmit, bytes: &[u8], dest: SocketAddr, what: &str) -> Result<(), Disc> {
+        if tr.data() != bytes {
+            return Err(self.d(
+                "C18",
+                "c18-bytes",
+                format!("{}: transmitted bytes {} differ from the serialisation of the message handed to send {}", what, hex_short(tr.data()), hex_short(bytes)),
+            ));
+        }
+        if tr.from != local_addr() || tr.to != dest || tr.transport != self.transport {
+            return Err(self.d(
+                "C18",
+                "c18-addressing",
+                format!(
+                    "{}: transmit is {:?} {} -> {}, expected {:?} {} -> {}",
+                    what,
+                    tr.transport,
+                    tr.from,
+                    tr.to,
+                    self.transport,
+                    local_addr(),
+                    dest
+                ),
+            ));
+        }
+        Ok(())
+    }
+
+    /// observations made after every call
+    fn check_observables(&mut self) -> Result<(), Disc> {
+        for (i, id) in POOL_IDS.iter().enumerate() {
+            let got = self.agent.request_transaction(TransactionId::from(*id)).map(|r| r.peer_address());
+            let want = self.model.outstanding.get(id);
+            match (got, want) {
+                (None, None) => {}
+                (Some(a), Some(tx)) => {
+                    if a != tx.dest {
+                        return Err(self.d(
+                            "C18",
+                            "c18-peer-address",
+                            format!("request_transaction(id#{}).peer_address() = {}, the request was sent to {}", i, a, tx.dest),
+                        ));
+                    }
+                    let b = self.agent.mut_request_transaction(TransactionId::from(*id)).map(|r| r.peer_address());
+                    if b != Some(tx.dest) {
+                        return Err(self.d("C18", "c18-peer-address", format!("mut_request_transaction(id#{}).peer_address() = {:?}", i, b)));
+                    }
+                }
+                (Some(_), None) => {
+                    let why = if self.model.completed_ids.contains(id) { "it completed earlier" } else { "it was never accepted" };
+                    return Err(self.d(
+                        "C05",
+                        "c05-still-outstanding",
+                        format!("request_transaction(id#{}) reports an outstanding transaction but {}", i, why),
+                    ));
+                }
+                (None, Some(_)) => {
+                    return Err(self.d(
+                        "C05",
+                        "c05-lost",
+                        format!("transaction id#{} is outstanding (sent, not yet answered / timed out / cancelled) but request_transaction finds nothing", i),
+                    ))
+                }
+            }
+        }
+        if self.agent.request_transaction(TransactionId::from(UNKNOWN_ID)).is_some() {
+            return Err(self.d("C05", "c05-still-outstanding", "a transaction exists for an id that was never sent".into()));
+        }
+        let mut addrs: Vec<SocketAddr> = (0..3).map(peer).collect();
+        addrs.push(never_used_peer());
+        addrs.push(local_addr());
+        for a in addrs {
+            let got = self.agent.is_validated_peer(a);
+            let want = self.model.validated.contains(&a);
+            if got != want {
+                return Err(self.d(
+                    "C15",
+                    if got { "c15-spurious" } else { "c15-lost" },
+                    format!(
+                        "is_validated_peer({}) = {} but the agent {} accepted a STUN message from it (validated set per model: {:?})",
+                        a,
+                        got,
+                        if want { "has" } else { "never" },
+                        self.model.validated
+                    ),
+                ));
+            }
+        }
+        self.sum.validated_peers = self.model.validated.len();
+        let n = self.model.outstanding.len();
+        if n > self.sum.max_outstanding {
+            self.sum.max_outstanding = n;
+        }
+        if n >= 2 {
+            let mut dests: Vec<SocketAddr> = self.model.outstanding.values().map(|t| t.dest).collect();
+            dests.dedup();
+            dests.sort();
+            dests.dedup();
+            if dests.len() >= 2 {
+                self.sum.two_dests_outstanding = true;
+            }
+        }
+        Ok(())
+    }
+
+    fn do_send(&mut self, id: u8, class: u8, seal: u8, dest: u8, payload: u8, cfg: Option<(u32, u8, u32)>) -> Result<(), Disc> {
+        let tid = pool_id(id);
+        let dest = peer(dest);
+        let now = self.now;
+        let at = self.at(now);
+        let is_request = class % 4 == 0;
+        let already = self.model.outstanding.contains_key(&tid);
+        // run the send inside the closure that owns the builder
+        let res: Result<(Vec<u8>, Result<(Vec<u8>, SocketAddr, SocketAddr, TransportType), StunError>), String> =
+            with_request(tid, class, seal, payload, |b, bytes| {
+                let r = self.agent.send(b, dest, at);
+                Ok((bytes, r.map(|t| (t.data().to_vec(), t.from, t.to, t.transport))))
+            });
+        let (bytes, r) = res.map_err(|e| self.d("C05", "harness", e))?;
+        if is_request {
+            match (already, r) {
+                (true, Err(StunError::AlreadyInProgress)) => {
+                    self.sum.sends_refused += 1;
+                }
+                (true, Err(e)) => {
+                    return Err(self.d("C05", "c05-duplicate-send", format!("sending a request whose id is outstanding failed with {:?} instead of AlreadyInProgress", e)))
+                }
+                (true, Ok(_)) => {
+                    return Err(self.d(
+                        "C05",
+                        "c05-duplicate-send",
+                        "sending a request whose id is already outstanding was accepted".into(),
+                    ))
+                }
+                (false, Err(e)) => {
+                    return Err(self.d("C05", "c05-send-refused", format!("sending a request with a free id failed: {:?}", e)));
+                }
+                (false, Ok((data, from, to, transport))) => {
+                    let tr = Transmit::new(data.as_slice(), transport, from, to);
+                    self.check_transmit(&tr, &bytes, dest, "initial transmission")?;
+                    if self.model.completed_ids.contains(&tid) {
+                        self.sum.id_reuse += 1;
+                    }
+                    let mut tx = Tx {
+                        bytes,
+                        dest,
+                        had_integrity: seal % 4 != 0,
+                        timing: default_timing(self.model.tcp, now),
+                        send_cancelled: false,
+                        recv_cancelled: false,
+                        transmissions: 1,
+                        max_transmissions: if self.model.tcp { 1 } else { 7 },
+                        dropped_forged: false,
+                    };
+                    if let Some((rto, n, last)) = cfg {
+                        match self.agent.mut_request_transaction(TransactionId::from(tid)) {
+                            Some(mut req) => {
+                                req.configure_timeout(Duration::from_millis(rto as u64), n as u32, Duration::from_millis(last as u64))
+                            }
+                            None => {
+                                return Err(self.d("C05", "c05-lost", "mut_request_transaction finds nothing right after a successful send".into()))
+                            }
+                        }
+                        let (t, l) = configured(self.model.tcp, rto as u64, n as u32, last as u64);
+                        tx.max_transmissions = if self.model.tcp { 1 } else { n as u32 + 1 };
+                        tx.timing = Timing::Exact {
+                            timeouts: t,
+                            last: l,
+                            i: 0,
+                            last_send: now,
+                        };
+                    }
+                    self.model.outstanding.insert(tid, tx);
+                    self.model.pending_wait = None;
+                    self.sum.sends_ok += 1;
+                }
+            }
+        } else {
+            self.sum.non_request_sends += 1;
+            match r {
+                Ok((data, from, to, transport)) => {
+                    let tr = Transmit::new(data.as_slice(), transport, from, to);
+                    self.check_transmit(&tr, &bytes, dest, "indication/response transmission")?;
+                }
+                Err(e) => return Err(self.d("C18", "c18-nonrequest", format!("sending an indication/response failed: {:?}", e))),
+            }
+            // it must leave no transaction behind
+            let has = self.agent.request_transaction(TransactionId::from(tid)).is_some();
+            if has != already {
+                return Err(self.d(
+                    "C18",
+                    "c18-nonrequest",
+                    "sending an indication/response left a transaction behind".into(),
+                ));
+            }
+        }
+        Ok(())
+    }
+
+    /// one poll at the current instant; returns true when an event (not WaitUntil) was reported
+    fn do_poll(&mut self) -> Result<bool, Disc> {
+        let now = self.now;
+        let at = self.at(now);
+        // classification of this poll relative to the model's earliest wake-up
+        let earliest_due = self.model.outstanding.values().filter_map(|t| self.due_time(t)).min();
+        if let Some(w) = earliest_due {
+            if self.model.all_exact() {
+                if now == w {
+                    self.sum.exact_polls += 1;
+                } else if now < w {
+                    self.sum.early_polls += 1;
+                } else {
+                    self.sum.late_polls += 1;
+                }
+            }
+        }
+        let pending = self.model.pending_wait;
+        let ret = self.agent.poll(at);
+        let is_event = !matches!(ret, StunAgentPollRet::WaitUntil(_));
+        // self-consistency of WaitUntil: earlier polls repeat it, a poll at t gives an event
+        if let Some(t) = pending {
+            if !self.model.outstanding.is_empty() {
+                let tag = if self.model.forged_since_wait { "C07" } else { "C06" };
+                if now < t {
+                    match &ret {
+                        StunAgentPollRet::WaitUntil(t2) if ms_of(self.origin, *t2) == t && sub_ms(self.origin, *t2) == t as i128 * 1000 => {
+                            self.sum.waits_checked += 1;
+                        }
+                        other => {
+                            return Err(self.d(
+                                tag,
+                                if tag == "C07" { "c07-timing-changed" } else { "c06-wait-unstable" },
+                                format!(
+                                    "an earlier poll answered WaitUntil({} ms) and nothing was sent, delivered, cancelled or reconfigured since; polling at {} ms (earlier) answers {}",
+                                    t,
+                                    now,
+                                    self.show(other)
+                                ),
+                            ))
+                        }
+                    }
+                } else if !is_event {
+                    return Err(self.d(
+                        tag,
+                        if tag == "C07" { "c07-timing-changed" } else { "c06-wait-no-event" },
+                        format!(
+                            "an earlier poll answered WaitUntil({} ms); polling at {} ms (not earlier) yields no event but {}",
+                            t,
+                            now,
+                            self.show(&ret)
+                        ),
+                    ));
+                }
+            }
+        }
+        match ret {
+            StunAgentPollRet::WaitUntil(t) => {
+                let t_ms = ms_of(self.origin, t);
+                let exact_us = sub_ms(self.origin, t);
+                // nothing may be serviceable
+                for (id, tx) in &self.model.outstanding {
+                    match tx.due(now) {
+                        Due::Cancelled => {
+                            return Err(self.d(
+                                "C05",
+                                "c05-cancel-ignored",
+                                format!("transaction {:#x} was cancelled but poll answers WaitUntil({} ms) instead of reporting it", id, t_ms),
+                            ))
+                        }
+                        Due::Send => {
+                            return Err(self.d(
+                                "C06",
+                                "c06-missed-retransmission",
+                                format!(
+                                    "a retransmission of {:#x} is due (since {:?} ms) but poll at {} ms answers WaitUntil({} ms)",
+                                    id,
+                                    self.due_time(tx),
+                                    now,
+                                    t_ms
+                                ),
+                            ))
+                        }
+                        Due::TimedOut => {
+                            return Err(self.d(
+                                "C06",
+                                "c06-missed-timeout",
+                                format!(
+                                    "transaction {:#x} timed out at {:?} ms but poll at {} ms answers WaitUntil({} ms)",
+                                    id,
+                                    self.due_time(tx),
+                                    now,
+                                    t_ms
+                                ),
+                            ))
+                        }
+                        Due::Wait(_) | Due::Unknown => {}
+                    }
+                }
+                if !self.model.outstanding.is_empty() {
+                    if self.model.all_exact() {
+                        let w = self.model.min_wake(now).unwrap();
+                        if exact_us != w as i128 * 1000 {
+                            return Err(self.d(
+                                "C06",
+                                "c06-wrong-wait",
+                                format!(
+                                    "poll at {} ms answers WaitUntil({} us after origin); the earliest instant at which an outstanding transaction needs service is {} ms ({})",
+                                    now,
+                                    exact_us,
+                                    w,
+                                    self.schedule_text()
+                                ),
+                            ));
+                        }
+                        self.sum.waits_checked += 1;
+                    }
+                    self.model.pending_wait = Some(t_ms);
+                    if exact_us != t_ms as i128 * 1000 {
+                        // sub-millisecond instant: cannot be used for the repeat relation
+                        self.model.pending_wait = None;
+                    }
+                    self.model.forged_since_wait = false;
+                } else {
+                    self.model.pending_wait = None;
+                }
+                Ok(false)
+            }
+            StunAgentPollRet::SendData(tr) => {
+                self.model.pending_wait = None;
+                let data = tr.data().to_vec();
+                let tid = if data.len() >= 20 {
+                    let mut t = [0u8; 16];
+                    t[4..].copy_from_slice(&data[8..20]);
+                    u128::from_be_bytes(t)
+                } else {
+                    u128::MAX
+                };
+                let Some(tx) = self.model.outstanding.get(&tid).cloned() else {
+                    // could it be a corrupted retransmission of a transaction that is due?
+                    let due_tx = self.model.outstanding.iter().find(|(_, t)| t.due(now) == Due::Send).map(|(i, _)| *i);
+                    return Err(match due_tx {
+                        Some(i) => self.d(
+                            "C18",
+                            "c18-bytes",
+                            format!("retransmission of {:#x} is due but poll transmits different bytes {}", i, hex_short(&data)),
+                        ),
+                        None => self.d(
+                            "C05",
+                            "c05-transmit-after-completion",
+                            format!(
+                                "poll transmits {} for transaction {:#x} which is not outstanding ({})",
+                                hex_short(&data),
+                                tid,
+                                if self.model.completed_ids.contains(&tid) { "it completed earlier" } else { "unknown id" }
+                            ),
+                        ),
+                    });
+                };
+                if tx.send_cancelled {
+                    return Err(self.d(
+                        "C06",
+                        "c06-transmit-after-cancel",
+                        format!("transaction {:#x} was transmitted again after cancel_retransmissions", tid),
+                    ));
+                }
+                match tx.due(now) {
+                    Due::Send | Due::Unknown => {}
+                    Due::Wait(t) => {
+                        return Err(self.d(
+                            "C06",
+                            "c06-early-retransmission",
+                            format!(
+                                "retransmission #{} of {:#x} handed out at {} ms but it is due only at {} ms ({})",
+                                tx.transmissions,
+                                tid,
+                                now,
+                                t,
+                                self.schedule_text()
+                            ),
+                        ))
+                    }
+                    Due::TimedOut => {
+                        return Err(self.d(
+                            "C06",
+                            "c06-extra-retransmission",
+                            format!(
+                                "transaction {:#x} was transmitted a {}th time although its schedule has only {} transmissions and it has timed out",
+                                tid,
+                                tx.transmissions + 1,
+                                tx.max_transmissions
+                            ),
+                        ))
+                    }
+                    Due::Cancelled => {
+                        return Err(self.d("C05", "c05-cancel-ignored", format!("cancelled transaction {:#x} was retransmitted", tid)));
+                    }
+                }
+                self.check_transmit(&tr, &tx.bytes, tx.dest, &format!("retransmission #{} of {:#x}", tx.transmissions, tid))?;
+                self.sum.retransmit_compared += 1;
+                self.sum.retransmissions += 1;
+                if self.model.outstanding.len() >= 2 {
+                    self.sum.overlap_with_retransmission = true;
+                }
+                let txm = self.model.outstanding.get_mut(&tid).unwrap();
+                txm.transmissions += 1;
+                if let Timing::Exact { i, last_send, .. } = &mut txm.timing {
+                    *i += 1;
+                    *last_send = now;
+                }
+                Ok(true)
+            }
+            StunAgentPollRet::TransactionTimedOut(t) => {
+                self.model.pending_wait = None;
+                let tid: u128 = t.into();
+                let Some(tx) = self.model.outstanding.get(&tid).cloned() else {
+                    return Err(self.d(
+                        "C05",
+                        "c05-double-completion",
+                        format!("poll reports a timeout for {:#x} which is not outstanding", tid),
+                    ));
+                };
+                match tx.due(now) {
+                    Due::TimedOut | Due::Unknown => {}
+                    Due::Wait(w) => {
+                        return Err(self.d(
+                            "C06",
+                            "c06-early-timeout",
+                            format!("transaction {:#x} reported timed out at {} ms, its timeout is at {} ms ({})", tid, now, w, self.schedule_text()),
+                        ))
+                    }
+                    Due::Send => {
+                        return Err(self.d(
+                            "C06",
+                            "c06-early-timeout",
+                            format!(
+                                "transaction {:#x} reported timed out at {} ms after {} transmissions, but {} are scheduled ({})",
+                                tid,
+                                now,
+                                tx.transmissions,
+                                tx.max_transmissions,
+                                self.schedule_text()
+                            ),
+                        ))
+                    }
+                    Due::Cancelled => {}
+                }
+                self.model.outstanding.remove(&tid);
+                self.model.completed_ids.insert(tid);
+                self.sum.timeouts += 1;
+                Ok(true)
+            }
+            StunAgentPollRet::TransactionCancelled(t) => {
+                self.model.pending_wait = None;
+                let tid: u128 = t.into();
+                let Some(tx) = self.model.outstanding.get(&tid).cloned() else {
+                    return Err(self.d(
+                        "C05",
+                        "c05-double-completion",
+                        format!("poll reports a cancellation for {:#x} which is not outstanding", tid),
+                    ));
+                };
+                if !tx.recv_cancelled && !tx.send_cancelled {
+                    return Err(self.d(
+                        "C05",
+                        "c05-spurious-cancel",
+                        format!("poll reports {:#x} cancelled but neither cancel nor cancel_retransmissions was called for it", tid),
+                    ));
+                }
+                self.model.outstanding.remove(&tid);
+                self.model.completed_ids.insert(tid);
+                self.sum.cancels += 1;
+                Ok(true)
+            }
+        }
+    }
+
+    fn due_time(&self, tx: &Tx) -> Option<u64> {
+        match &tx.timing {
+            Timing::Exact { timeouts, last, i, last_send } => Some(last_send + if *i < timeouts.len() { timeouts[*i] } else { *last }),
+            Timing::Loose => None,
+        }
+    }
+
+    fn schedule_text(&self) -> String {
+        self.model
+            .outstanding
+            .iter()
+            .map(|(id, tx)| match &tx.timing {
+                Timing::Exact { timeouts, last, i, last_send } => format!(
+                    "{:#x}: intervals {:?} final {} ms, {} retransmissions done, last handed out at {} ms",
+                    id, timeouts, last, i, last_send
+                ),
+                Timing::Loose => format!("{:#x}: schedule not defined", id),
+            })
+            .collect::<Vec<_>>()
+            .join("; ")
+    }
+
+    fn show(&self, r: &StunAgentPollRet) -> String {
+        match r {
+            StunAgentPollRet::WaitUntil(t) => format!("WaitUntil({} us)", sub_ms(self.origin, *t)),
+            StunAgentPollRet::SendData(tr) => format!("SendData({} bytes to {})", tr.data().len(), tr.to),
+            StunAgentPollRet::TransactionTimedOut(t) => format!("TransactionTimedOut({})", t),
+            StunAgentPollRet::TransactionCancelled(t) => format!("TransactionCancelled({})", t),
+        }
+    }
+
+    fn do_drain(&mut self) -> Result<(), Disc> {
+        let bound = 4 * self.model.outstanding.len() + 8;
+        for _ in 0..bound {
+            if !self.do_poll()? {
+                return Ok(());
+            }
+            self.check_observables()?;
+        }
+        Err(self.d("C05", "c05-poll-never-settles", format!("poll keeps producing events at the same instant ({} polls)", bound)))
+    }
+
+    fn do_response(&mut self, id: u8, error: bool, auth: Auth, from: u8, fp: bool) -> Result<(), Disc> {
+        let tid = pool_id(id);
+        let from = peer(from);
+        let bytes = response_bytes(tid, error, auth, fp);
+        let expect_deliver = match self.model.outstanding.get(&tid) {
+            None => None,
+            Some(tx) => Some(!tx.had_integrity || self.model.remote.as_ref().map(|c| ref_validates(&bytes, &c.key())).unwrap_or(false)),
+        };
+        // when a drop of a response to an outstanding transaction is expected, pin the timer first
+        let mut pinned: Option<u64> = None;
+        if expect_deliver == Some(false) {
+            self.do_drain()?;
+            // the drain may have completed the transaction
+            if self.model.outstanding.contains_key(&tid) {
+                pinned = self.model.pending_wait;
+            }
+        }
+        let expect_deliver = match self.model.outstanding.get(&tid) {
+            None => None,
+            Some(_) => expect_deliver,
+        };
+        let Ok(msg) = Message::from_bytes(&bytes) else {
+            return Ok(()); // the parser's business (C02)
+        };
+        let reply = self.agent.handle_stun(msg, from);
+        match (expect_deliver, &reply) {
+            (None, HandleStunReply::Drop) => {
+                self.sum.dropped_unknown += 1;
+                if self.model.completed_ids.contains(&tid) {
+                    self.sum.late_response_after_completion += 1;
+                }
+                self.last_drop_peer = Some(from);
+            }
+            (None, HandleStunReply::StunResponse(_)) => {
+                return Err(self.d(
+                    "C05",
+                    "c05-delivered-not-outstanding",
+                    format!(
+                        "a response for {:#x} was delivered although that transaction is not outstanding ({})",
+                        tid,
+                        if self.model.completed_ids.contains(&tid) { "it completed earlier" } else { "unknown id" }
+                    ),
+                ))
+            }
+            (None, HandleStunReply::IncomingStun(_)) => {
+                return Err(self.d("C05", "c05-delivered-not-outstanding", "a response was reported as IncomingStun".into()));
+            }
+            (Some(true), HandleStunReply::StunResponse(m)) => {
+                let got: u128 = m.transaction_id().into();
+                if got != tid {
+                    return Err(self.d("C05", "c05-delivered-not-outstanding", "delivered response carries another transaction id".into()));
+                }
+                let tx = self.model.outstanding.remove(&tid).unwrap();
+                if tx.dropped_forged {
+                    self.sum.delivered_after_drop += 1;
+                }
+                self.model.completed_ids.insert(tid);
+                self.model.validated.insert(from);
+                self.model.pending_wait = None;
+                self.sum.delivered += 1;
+                if let Some(p) = self.last_drop_peer {
+                    if p != from {
+                        self.sum.drop_then_other_peer_traffic += 1;
+                    }
+                }
+            }
+            (Some(true), other) => {
+                let tx = &self.model.outstanding[&tid];
+                return Err(self.d(
+                    "C07",
+                    "c07-genuine-dropped",
+                    format!(
+                        "a response to {:#x} that must be delivered (request sealed: {}, remote credentials set: {}, response auth {:?}) was answered with {}",
+                        tid,
+                        tx.had_integrity,
+                        self.model.remote.is_some(),
+                        auth,
+                        match other {
+                            HandleStunReply::Drop => "Drop",
+                            _ => "IncomingStun",
+                        }
+                    ),
+                ));
+            }
+            (Some(false), HandleStunReply::Drop) => {
+                self.sum.dropped_forged += 1;
+                self.last_drop_peer = Some(from);
+                self.model.outstanding.get_mut(&tid).unwrap().dropped_forged = true;
+                self.model.forged_since_wait = true;
+                // still outstanding, timer untouched: the same WaitUntil as before the forged response
+                if self.agent.request_transaction(TransactionId::from(tid)).is_none() {
+                    return Err(self.d(
+                        "C07",
+                        "c07-forged-completes",
+                        format!("a dropped response (auth {:?}) removed transaction {:#x}", auth, tid),
+                    ));
+                }
+                if let Some(t) = pinned {
+                    let at = self.at(self.now);
+                    let again = self.agent.poll(at);
+                    match &again {
+                        StunAgentPollRet::WaitUntil(t2) if sub_ms(self.origin, *t2) == t as i128 * 1000 => {
+                            self.sum.timer_checked_after_drop += 1;
+                        }
+                        other => {
+                            return Err(self.d(
+                                "C07",
+                                "c07-timing-changed",
+                                format!(
+                                    "before the forged response (auth {:?}) poll answered WaitUntil({} ms); right after it poll answers {}",
+                                    auth,
+                                    t,
+                                    self.show(other)
+                                ),
+                            ))
+                        }
+                    }
+                }
+            }
+            (Some(false), _) => {
+                let tx = &self.model.outstanding[&tid];
+                return Err(self.d(
+                    "C07",
+                    "c07-forged-delivered",
+                    format!(
+                        "a response to the sealed request {:#x} was delivered although it must be dropped: response auth {:?}, remote credentials {:?}, request sealed: {}",
+                        tid, auth, self.model.remote, tx.had_integrity
+                    ),
+                ));
+            }
+        }
+        Ok(())
+    }
+
+    fn do_incoming(&mut self, id: u8, indication: bool, from: u8) -> Result<(), Disc> {
+        let tid = pool_id(id);
+        let from = peer(from);
+        let bytes = incoming_bytes(tid, indication);
+        let Ok(msg) = Message::from_bytes(&bytes) else {
+            return Ok(());
+        };
+        let reply = self.agent.handle_stun(msg, from);
+        // handed a request or indication received from `from`
+        self.model.validated.insert(from);
+        self.sum.incoming += 1;
+        if let Some(p) = self.last_drop_peer {
+            if p != from {
+                self.sum.drop_then_other_peer_traffic += 1;
+            }
+        }
+        if let HandleStunReply::StunResponse(_) = reply {
+            return Err(self.d("C05", "c05-delivered-not-outstanding", "a request/indication was reported as a response".into()));
+        }
+        Ok(())
+    }
+
+    pub fn step_op(&mut self, op: &Op) -> Result<(), Disc> {
+        match op {
+            Op::Send { id, class, seal, dest, payload } => self.do_send(*id, *class, *seal, *dest, *payload, None)?,
+            Op::SendConfigured {
+                id,
+                seal,
+                dest,
+                payload,
+                rto_ms,
+                retransmits,
+                last_ms,
+            } => self.do_send(*id, 0, *seal, *dest, *payload, Some((*rto_ms, *retransmits, *last_ms)))?,
+            Op::Advance(a) => {
+                let wake = self.model.min_wake(self.now);
+                let target = match a {
+                    Adv::Zero => self.now,
+                    Adv::Ms(d) => self.now + *d as u64,
+                    Adv::ToWakeMinus(d) => wake.map(|w| w.saturating_sub(*d as u64 + 1)).unwrap_or(self.now + 1000),
+                    Adv::ToWake => wake.unwrap_or(self.now + 1000),
+                    Adv::ToWakePlus(d) => wake.map(|w| w + *d as u64).unwrap_or(self.now + 1000),
+                    Adv::Far => self.now + 120_000,
+                };
+                self.now = self.now.max(target);
+            }
+            Op::Poll => {
+                self.do_poll()?;
+            }
+            Op::Drain => self.do_drain()?,
+            Op::Response { id, error, auth, from, fp } => self.do_response(*id, *error, *auth, *from, *fp)?,
+            Op::Incoming { id, indication, from } => self.do_incoming(*id, *indication, *from)?,
+            Op::Cancel { id } => {
+                let tid = pool_id(*id);
+                let want = self.model.outstanding.contains_key(&tid);
+                match self.agent.mut_request_transaction(TransactionId::from(tid)) {
+                    Some(mut r) => {
+                        if !want {
+                            return Err(self.d("C05", "c05-still-outstanding", format!("mut_request_transaction({:#x}) finds a transaction that is not outstanding", tid)));
+                        }
+                        r.cancel();
+                        let tx = self.model.outstanding.get_mut(&tid).unwrap();
+                        tx.recv_cancelled = true;
+                        tx.send_cancelled = true;
+                        self.model.pending_wait = None;
+                    }
+                    None => {
+                        if want {
+                            return Err(self.d("C05", "c05-lost", format!("mut_request_transaction({:#x}) finds nothing for an outstanding transaction", tid)));
+                        }
+                    }
+                }
+            }
+            Op::CancelRetransmissions { id } => {
+                let tid = pool_id(*id);
+                if let Some(mut r) = self.agent.mut_request_transaction(TransactionId::from(tid)) {
+                    r.cancel_retransmissions();
+                    if let Some(tx) = self.model.outstanding.get_mut(&tid) {
+                        tx.send_cancelled = true;
+                        // how the transaction ends after this is not prescribed: no further
+                        // transmission, completion as cancelled or timed out
+                        tx.timing = Timing::Loose;
+                        self.sum.loose += 1;
+                        self.model.pending_wait = None;
+                    }
+                }
+            }
+            Op::Configure { id, rto_ms, retransmits, last_ms } => {
+                let tid = pool_id(*id);
+                let tcp = self.model.tcp;
+                if let Some(mut r) = self.agent.mut_request_transaction(TransactionId::from(tid)) {
+                    r.configure_timeout(Duration::from_millis(*rto_ms as u64), *retransmits as u32, Duration::from_millis(*last_ms as u64));
+                    if let Some(tx) = self.model.outstanding.get_mut(&tid) {
+                        let fresh = matches!(&tx.timing, Timing::Exact { i: 0, .. }) && tx.transmissions == 1;
+                        if fresh {
+                            let (t, l) = configured(tcp, *rto_ms as u64, *retransmits as u32, *last_ms as u64);
+                            if let Timing::Exact { timeouts, last, .. } = &mut tx.timing {
+                                *timeouts = t;
+                                *last = l;
+                            }
+                            tx.max_transmissions = if tcp { 1 } else { *retransmits as u32 + 1 };
+                        } else if !matches!(tx.timing, Timing::Loose) {
+                            tx.timing = Timing::Loose;
+                            self.sum.loose += 1;
+                        }
+                        self.model.pending_wait = None;
+                    }
+                }
+            }
+            Op::SetRemoteCreds(k) => {
+                let c = creds_k(*k % 2);
+                self.agent.set_remote_credentials(c.to_lib());
+                self.model.remote = Some(c);
+            }
+        }
+        self.check_observables()
+    }
+
+    /// run the whole history, then drain to quiescence
+    pub fn run(mut self) -> Result<Summary, Disc> {
+        let h = self.h;
+        for (i, op) in h.ops.iter().enumerate() {
+            self.step = i;
+            self.step_op(op)?;
+        }
+        self.step = h.ops.len();
+        // every outstanding transaction must complete exactly once within its schedule
+        // every event may be followed by one WaitUntil; transactions without prescribed schedule get a flat allowance
+        let mut budget: usize = self
+            .model
+            .outstanding
+            .values()
+            .map(|t| if matches!(t.timing, Timing::Loose) { 64 } else { 2 * t.max_transmissions as usize + 6 })
+            .sum::<usize>()
+            + 16;
+        while !self.model.outstanding.is_empty() {
+            if budget == 0 {
+                return Err(self.d(
+                    "C05",
+                    "c05-never-completes",
+                    format!(
+                        "transactions {:x?} are still outstanding after following every WaitUntil for longer than their schedules allow",
+                        self.model.outstanding.keys().collect::<Vec<_>>()
+                    ),
+                ));
+            }
+            budget -= 1;
+            let now = self.now;
+            let at = self.at(now);
+            let had_event = self.do_poll()?;
+            self.check_observables()?;
+            if !had_event {
+                // follow the agent's own wake-up instant
+                match self.model.pending_wait {
+                    Some(t) if t > now => self.now = t,
+                    _ => {
+                        // sub-millisecond or loose: ask again slightly later
+                        let r = self.agent.poll(at);
+                        if let StunAgentPollRet::WaitUntil(t) = r {
+                            let t = ms_of(self.origin, t);
+                            self.now = if t > now { t } else { now + 1 };
+                            // the extra poll was not model-checked; it cannot have produced an event
+                        } else {
+                            return Err(self.d("C06", "c06-wait-unstable", "two polls at the same instant disagree".into()));
+                        }
+                    }
+                }
+            }
+        }
+        self.sum.steps = h.ops.len();
+        Ok(self.sum)
+    }
+}
+
+pub fn process_origin() -> Instant {
+    static O: std::sync::OnceLock<Instant> = std::sync::OnceLock::new();
+    // the only clock read of the harness: there is no other way to construct an Instant
+    *O.get_or_init(|| Instant::now() + Duration::from_secs(1000))
+}
+
+pub fn run_history(h: &History) -> Result<Summary, Disc> {
+    Interp::new(h, process_origin()).run()
+}
+
+// ---------------------------------------------------------------------------------------------
+// generators
+
+#[derive(Debug, Clone, Copy, PartialEq, Eq)]
+pub enum Profile {
+    Lifecycle,
+    Timing,
+    Auth,
+    Peers,
+    Transmit,
+}
+
+fn adv_strategy() -> BoxedStrategy<Adv> {
+    prop_oneof![
+        1 => Just(Adv::Zero),
+        2 => prop_oneof![Just(1u32), 1u32..600, 1u32..20_000].prop_map(Adv::Ms),
+        3 => prop_oneof![Just(0u32), 0u32..400].prop_map(Adv::ToWakeMinus),
+        4 => Just(Adv::ToWake),
+        3 => prop_oneof![Just(1u32), 1u32..3000].prop_map(Adv::ToWakePlus),
+        1 => Just(Adv::Far),
+    ]
+    .boxed()
+}
+
+fn auth_strategy() -> BoxedStrategy<Auth> {
+    prop_oneof![
+        2 => Just(Auth::Unsigned),
+        5 => (0u8..3, 0u8..3).prop_map(|(key, algo)| Auth::Signed { key, algo }),
+        2 => (0u8..2, 0u8..3).prop_map(|(key, algo)| Auth::Corrupted { key, algo }),
+    ]
+    .boxed()
+}
+
+fn cfg_strategy() -> BoxedStrategy<(u32, u8, u32)> {
+    (
+        prop_oneof![3 => 1u32..=2000, 1 => 1u32..=60_000, 1 => Just(500u32), 1 => Just(1u32), 1 => Just(60_000u32)],
+        prop_oneof![4 => 0u8..=4, 2 => 0u8..=8, 1 => Just(8u8)],
+        prop_oneof![3 => 0u32..=3000, 1 => 0u32..=60_000, 1 => Just(0u32), 1 => Just(60_000u32)],
+    )
+        .boxed()
+}
+
+pub fn op_strategy(p: Profile) -> BoxedStrategy<Op> {
+    let id = || prop_oneof![3 => 0u8..2, 1 => 0u8..4];
+    let seal = move || match p {
+        Profile::Auth => prop_oneof![1 => Just(0u8), 5 => 1u8..4].boxed(),
+        _ => prop_oneof![3 => Just(0u8), 2 => 1u8..4].boxed(),
+    };
+    let send = (id(), prop_oneof![8 => Just(0u8), 1 => 1u8..4], seal(), 0u8..3, any::<u8>())
+        .prop_map(|(id, class, seal, dest, payload)| Op::Send { id, class, seal, dest, payload });
+    let send_cfg = (id(), seal(), 0u8..3, any::<u8>(), cfg_strategy()).prop_map(|(id, seal, dest, payload, (rto_ms, retransmits, last_ms))| Op::SendConfigured {
+        id,
+        seal,
+        dest,
+        payload,
+        rto_ms,
+        retransmits,
+        last_ms,
+    });
+    let response = (prop_oneof![6 => id(), 1 => 4u8..6], any::<bool>(), auth_strategy(), 0u8..3, any::<bool>())
+        .prop_map(|(id, error, auth, from, fp)| Op::Response { id, error, auth, from, fp });
+    let incoming = (prop_oneof![2 => id(), 1 => 4u8..6], any::<bool>(), 0u8..3).prop_map(|(id, indication, from)| Op::Incoming { id, indication, from });
+    let cancel = id().prop_map(|id| Op::Cancel { id });
+    let cancel_r = id().prop_map(|id| Op::CancelRetransmissions { id });
+    let configure = (id(), cfg_strategy()).prop_map(|(id, (rto_ms, retransmits, last_ms))| Op::Configure {
+        id,
+        rto_ms,
+        retransmits,
+        last_ms,
+    });
+    let set_creds = (0u8..2).prop_map(Op::SetRemoteCreds);
+    let advance = adv_strategy().prop_map(Op::Advance);
+    match p {
+        Profile::Lifecycle => prop_oneof![
+            5 => send, 2 => send_cfg, 6 => advance, 5 => Just(Op::Poll), 2 => Just(Op::Drain), 5 => response, 1 => incoming,
+            2 => cancel, 1 => cancel_r, 1 => configure, 1 => set_creds,
+        ]
+        .boxed(),
+        Profile::Timing => prop_oneof![
+            3 => send, 5 => send_cfg, 10 => advance, 8 => Just(Op::Poll), 2 => Just(Op::Drain), 1 => response, 1 => cancel_r, 1 => cancel,
+        ]
+        .boxed(),
+        Profile::Auth => prop_oneof![
+            5 => send, 1 => send_cfg, 4 => advance, 3 => Just(Op::Poll), 1 => Just(Op::Drain), 10 => response, 3 => set_creds, 1 => incoming,
+        ]
+        .boxed(),
+        Profile::Peers => prop_oneof![
+            5 => send, 3 => advance, 2 => Just(Op::Poll), 1 => Just(Op::Drain), 8 => response, 4 => incoming, 2 => set_creds, 1 => cancel,
+        ]
+        .boxed(),
+        Profile::Transmit => prop_oneof![
+            7 => send, 3 => send_cfg, 8 => advance, 7 => Just(Op::Poll), 2 => Just(Op::Drain), 2 => response, 1 => cancel_r, 1 => configure,
+        ]
+        .boxed(),
+    }
+}
+
+pub fn history_strategy(p: Profile, max_ops: usize) -> BoxedStrategy<History> {
+    (prop_oneof![3 => Just(false), 1 => Just(true)], vec(op_strategy(p), 0..=max_ops))
+        .prop_map(|(tcp, ops)| History { tcp, ops })
+        .boxed()
+}
+
+// ---------------------------------------------------------------------------------------------
+// plain recorder for the metamorphic checks of C20 (no model involved)
+
+/// Replies of one execution: one entry per op, each a sorted multiset of reply descriptions with
+/// every instant expressed relative to `origin`.
+pub fn record_run(h: &History, origin: Instant, other_agents: u8, restrict_to: Option<u8>) -> Vec<Vec<String>> {
+    let transport = if h.tcp { TransportType::Tcp } else { TransportType::Udp };
+    let mut agent = StunAgent::builder(transport, local_addr()).build();
+    let mut others: Vec<StunAgent> = vec![];
+    let mut out = vec![];
+    let mut now = 0u64;
+    let rel = |t: Instant| sub_ms(origin, t);
+    for (step, op) in h.ops.iter().enumerate() {
+        // unrelated agents are created and operated in between
+        if other_agents > 0 && step % 3 == 0 && others.len() < other_agents as usize {
+            let mut o = StunAgent::builder(transport, "10.9.9.9:1".parse().unwrap()).build();
+            with_request(pool_id(0), 0, 0, step as u8, |b, _| {
+                let _ = o.send(b, peer(1), origin + Duration::from_millis(now + 17));
+            });
+            others.push(o);
+        }
+        for o in others.iter_mut() {
+            let _ = o.poll(origin + Duration::from_millis(now + 977));
+        }
+        let concerns = |id: u8| restrict_to.map_or(true, |r| r == id);
+        let mut replies: Vec<String> = vec![];
+        let at = |ms: u64| origin + Duration::from_millis(ms);
+        match op {
+            Op::Send { id, class, seal, dest, payload } => {
+                if concerns(*id) {
+                    with_request(pool_id(*id), *class, *seal, *payload, |b, _| {
+                        let r = agent.send(b, peer(*dest), at(now));
+                        replies.push(match r {
+                            Ok(t) => format!("id={:x} send ok {} {}->{} {:?}", pool_id(*id), hex_short(t.data()), t.from, t.to, t.transport),
+                            Err(e) => format!("id={:x} send err {:?}", pool_id(*id), e),
+                        });
+                    });
+                }
+            }
+            Op::SendConfigured { id, seal, dest, payload, rto_ms, retransmits, last_ms } => {
+                if concerns(*id) {
+                    with_request(pool_id(*id), 0, *seal, *payload, |b, _| {
+                        let r = agent.send(b, peer(*dest), at(now));
+                        replies.push(match r {
+                            Ok(t) => format!("id={:x} send ok {} {}->{} {:?}", pool_id(*id), hex_short(t.data()), t.from, t.to, t.transport),
+                            Err(e) => format!("id={:x} send err {:?}", pool_id(*id), e),
+                        });
+                    });
+                    if let Some(mut r) = agent.mut_request_transaction(TransactionId::from(pool_id(*id))) {
+                        r.configure_timeout(Duration::from_millis(*rto_ms as u64), *retransmits as u32, Duration::from_millis(*last_ms as u64));
+                    }
+                }
+            }
+            Op::Advance(a) => {
+                now += match a {
+                    Adv::Zero => 0,
+                    Adv::Ms(d) | Adv::ToWakeMinus(d) | Adv::ToWakePlus(d) => *d as u64,
+                    Adv::ToWake => 500,
+                    Adv::Far => 120_000,
+                };
+            }
+            Op::Poll | Op::Drain => {
+                // always a drain so that the state after the step does not depend on map order
+                for _ in 0..64 {
+                    match agent.poll(at(now)) {
+                        StunAgentPollRet::WaitUntil(t) => {
+                            if restrict_to.is_none() {
+                                replies.push(format!("wait {}", rel(t)));
+                            }
+                            break;
+                        }
+                        StunAgentPollRet::SendData(t) => {
+                            let d = t.data();
+                            let id = if d.len() >= 20 { crate::common::hex(&d[8..20]) } else { String::new() };
+                            replies.push(format!("id={} tx {} {}->{} {:?}", id.trim_start_matches('0'), hex_short(d), t.from, t.to, t.transport))
+                        }
+                        StunAgentPollRet::TransactionTimedOut(t) => replies.push(format!("id={:x} timeout", u128::from(t))),
+                        StunAgentPollRet::TransactionCancelled(t) => replies.push(format!("id={:x} cancelled", u128::from(t))),
+                    }
+                }
+            }
+            Op::Response { id, error, auth, from, fp } => {
+                if concerns(*id) {
+                    let bytes = response_bytes(pool_id(*id), *error, *auth, *fp);
+                    if let Ok(m) = Message::from_bytes(&bytes) {
+                        let r = match agent.handle_stun(m, peer(*from)) {
+                            HandleStunReply::Drop => "drop".to_string(),
+                            HandleStunReply::StunResponse(m) => format!("response {}", m.transaction_id()),
+                            HandleStunReply::IncomingStun(m) => format!("incoming {}", m.transaction_id()),
+                        };
+                        replies.push(format!("id={:x} handle_stun -> {}", pool_id(*id), r));
+                    }
+                }
+            }
+            Op::Incoming { id, indication, from } => {
+                if concerns(*id) {
+                    let bytes = incoming_bytes(pool_id(*id), *indication);
+                    if let Ok(m) = Message::from_bytes(&bytes) {
+                        let r = match agent.handle_stun(m, peer(*from)) {
+                            HandleStunReply::Drop => "drop".to_string(),
+                            HandleStunReply::StunResponse(m) => format!("response {}", m.transaction_id()),
+                            HandleStunReply::IncomingStun(m) => format!("incoming {}", m.transaction_id()),
+                        };
+                        replies.push(format!("id={:x} handle_stun -> {}", pool_id(*id), r));
+                    }
+                }
+            }
+            Op::Cancel { id } => {
+                if concerns(*id) {
+                    if let Some(mut r) = agent.mut_request_transaction(TransactionId::from(pool_id(*id))) {
+                        r.cancel();
+                    }
+                }
+            }
+            Op::CancelRetransmissions { id } => {
+                if concerns(*id) {
+                    if let Some(mut r) = agent.mut_request_transaction(TransactionId::from(pool_id(*id))) {
+                        r.cancel_retransmissions();
+                    }
+                }
+            }
+            Op::Configure { id, rto_ms, retransmits, last_ms } => {
+                if concerns(*id) {
+                    if let Some(mut r) = agent.mut_request_transaction(TransactionId::from(pool_id(*id))) {
+                        r.configure_timeout(Duration::from_millis(*rto_ms as u64), *retransmits as u32, Duration::from_millis(*last_ms as u64));
+                    }
+                }
+            }
+            Op::SetRemoteCreds(k) => agent.set_remote_credentials(creds_k(*k % 2).to_lib()),
+        }
+        if restrict_to.is_none() {
+            for id in POOL_IDS {
+                replies.push(format!("outstanding {:x} {}", id, agent.request_transaction(TransactionId::from(id)).is_some()));
+            }
+            for a in [peer(0), peer(1), peer(2)] {
+                replies.push(format!("validated {} {}", a, agent.is_validated_peer(a)));
+            }
+        }
+        replies.sort();
+        out.push(replies);
+    }
+    out
+}
